@@ -1322,6 +1322,9 @@ class Controller:
         '''
 
         if self.link is None:
+            self._send_hci_command_status(
+                hci.HCI_ErrorCode.COMMAND_DISALLOWED_ERROR, command.op_code
+            )
             return None
         logger.debug(f'Connection request to {command.bd_addr}')
 
@@ -1425,6 +1428,9 @@ class Controller:
         '''
 
         if self.link is None:
+            self._send_hci_command_status(
+                hci.HCI_ErrorCode.COMMAND_DISALLOWED_ERROR, command.op_code
+            )
             return None
 
         if not (connection := self.classic_connections.get(command.bd_addr)):
@@ -1534,6 +1540,9 @@ class Controller:
         '''
 
         if self.link is None:
+            self._send_hci_command_status(
+                hci.HCI_ErrorCode.COMMAND_DISALLOWED_ERROR, command.op_code
+            )
             return None
 
         if not (
@@ -1581,6 +1590,9 @@ class Controller:
         '''
 
         if self.link is None:
+            self._send_hci_command_status(
+                hci.HCI_ErrorCode.COMMAND_DISALLOWED_ERROR, command.op_code
+            )
             return None
 
         if not (connection := self.classic_connections.get(command.bd_addr)):
@@ -1652,6 +1664,9 @@ class Controller:
         '''
 
         if self.link is None:
+            self._send_hci_command_status(
+                hci.HCI_ErrorCode.COMMAND_DISALLOWED_ERROR, command.op_code
+            )
             return None
 
         if connection := self.classic_connections.get(command.bd_addr):
@@ -2192,6 +2207,9 @@ class Controller:
         '''
 
         if not self.link:
+            self._send_hci_command_status(
+                hci.HCI_ErrorCode.COMMAND_DISALLOWED_ERROR, command.op_code
+            )
             return None
 
         logger.debug(f'Connection request to {command.peer_address}')
@@ -2224,6 +2242,9 @@ class Controller:
         See Bluetooth spec Vol 4, Part E - 7.8.66 LE Extended Create Connection Command
         '''
         if not self.link:
+            self._send_hci_command_status(
+                hci.HCI_ErrorCode.COMMAND_DISALLOWED_ERROR, command.op_code
+            )
             return
 
         # Check pending
@@ -2331,6 +2352,9 @@ class Controller:
         See Bluetooth spec Vol 4, Part E - 7.8.24 LE Enable Encryption Command
         '''
         if not self.link:
+            self._send_hci_command_status(
+                hci.HCI_ErrorCode.COMMAND_DISALLOWED_ERROR, command.op_code
+            )
             return
 
         # Check the parameters
@@ -2716,6 +2740,9 @@ class Controller:
         See Bluetooth spec Vol 4, Part E - 7.8.99 LE Create CIS Command
         '''
         if not self.link:
+            self._send_hci_command_status(
+                hci.HCI_ErrorCode.COMMAND_DISALLOWED_ERROR, command.op_code
+            )
             return None
 
         for cis_handle, acl_handle in zip(
@@ -2767,6 +2794,9 @@ class Controller:
         See Bluetooth spec Vol 4, Part E - 7.8.101 LE Accept CIS Request Command
         '''
         if not self.link:
+            self._send_hci_command_status(
+                hci.HCI_ErrorCode.COMMAND_DISALLOWED_ERROR, command.op_code
+            )
             return None
 
         if not (
